@@ -18,13 +18,15 @@ Trace == ndJsonDeserialize(IOEnv.IN_FILE)
 Laws == {"SPM-closed-form", "SPM-closed-form-with-loss", "1pol=x-row-of-2pol-with-empty-y", "SPM-lattice-j^m", "linear-limit=DM",
          "result-independent-of-call-history", "real-dtype-field=complex-dtype-field"}
 Cx10(name) == IF name = "fundamental-soliton-error<=C*phi_max" THEN 1 ELSE 20
+\* (conformance to the design's exact step, hk_ppb, and the step count are recorded in the events but are not part of the statement:
+\*  a controller that takes shorter steps still satisfies it; termination is enforced by the harness deadline)
 Clauses(e) ==
   CASE e.kind = "ctrl" ->
-        (IF \E i \in 1..Len(e.steps) : e.steps[i].kind # "last" /\ e.steps[i].hk_ppb > 1000 THEN {"step-from-peak-total-power"} ELSE {}) \cup
+        \* phi_max is documented as the upper bound of the nonlinear phase rotation per step: a step may be shorter than the design's, never longer
+        (IF \E i \in 1..Len(e.steps) : e.steps[i].kind # "last" /\ e.steps[i].over_ppb > 1000 THEN {"nonlinear-phase-per-step-exceeds-phi_max"} ELSE {}) \cup
         (IF \E i \in 1..Len(e.steps) : ~e.steps[i].forward THEN {"step-backwards"} ELSE {}) \cup
         (IF \E i \in 1..Len(e.steps) : ~e.steps[i].inside THEN {"step-beyond-the-fibre-end"} ELSE {}) \cup
-        (IF e.L_ppb > 1000 THEN {"steps-sum-to-length"} ELSE {}) \cup
-        (IF e.nsteps > e.bound THEN {"too-many-steps"} ELSE {})
+        (IF e.L_ppb > 1000 THEN {"steps-sum-to-length"} ELSE {})
     [] e.kind = "energy" -> IF e.ppb > 1000 + e.dB * 20000 THEN {"energy-conserved-up-to-loss"} ELSE {}
     [] e.kind = "finite" -> (IF ~e.ok THEN {"finite-output"} ELSE {}) \cup (IF ~e.shape_ok THEN {"shape-preserved"} ELSE {})
     [] e.kind = "law" -> IF e.name \notin Laws THEN {"unknown-law"} ELSE IF e.ppt > 1000000 THEN {e.name} ELSE {}
